@@ -84,6 +84,19 @@ def execute(item):
             viol(("empty_selection_changed_or_rewrote_the_file",), {"effective": ex.effective_rules[:3]}, {})
         elif mon.bad:
             viol(mon.bad[:1] + ("empty_selection",), {"rule": mon.bad[1]}, {})
+    # a rule listed with no line at all, and with a line it does not report on: nothing to fix, so nothing may be written
+    if V:
+        rid0 = sorted(V)[0]
+        free0 = next((k for k in range(1, len(lines) + 1) if k not in V[rid0]), None)
+        for s0 in ([], [free0] if free0 else None):
+            if s0 is None:
+                continue
+            ex, mon = run_sel(item, lines, {rid0: list(s0)})
+            nsel += 1
+            if ex.outcome == "ok" and (ex.final_lines != lines or (ex.rl is not None and ex.rl.had_violations)):
+                viol(("selection_that_fixes_nothing_changed_or_rewrote_the_file", "no_line" if not s0 else "unreported_line"), {"rule": rid0, "effective": ex.effective_rules[:3]}, {rid0: list(s0)})
+    if item.get("only_global"):
+        V = {}
     # trailing-whitespace-only differences are the documented file-wide side effect of a write-back
     tw = {i + 1 for i, x in enumerate(lines) if x != x.rstrip()}
     for rid, lns in V.items():
@@ -157,10 +170,17 @@ def main(tier):
     else:
         seeds = [s for s in corpus.seed_ids(("fix", "cls", "gen")) if len(corpus.lines_of(s)) <= 60]
         its = universe.zero_dev(seeds, styles=(None, "jcl"))
+    # the same seeds with trailing whitespace on one line (the file-wide clean-up after phase 1 must not reach the disk on its own)
+    tws = []
+    for s in seeds if tier != "quick" else [x for x in seeds if x.startswith(("fix/", "gen/"))]:
+        ops = universe.seedinfo(s).ops(("TW",))
+        for op in (ops[:1] + ops[-1:] if len(ops) > 1 else ops):
+            tws.append(dict(universe.mk(s, (op,)), only_global=True))
+    its += tws
     m = explore.run(its, execute, horizon=900.0, label=PROP, chunk=1)
     return report.finish(
         PROP, tier, "exploration", [m], t0,
-        "per seed and style, selections S: every rule 'all'; nothing; (r,'all') for every fixable reporting rule r of the all-phases report; (r,[l]) for every reported line; (r,[l1,l2]) for "
+        "per seed and style (and per seed with trailing whitespace added to its first / last code line: global selections only), selections S: every rule 'all'; nothing; a rule with an empty line list;  (r,'all') for every fixable reporting rule r of the all-phases report; (r,[l]) for every reported line; (r,[l1,l2]) for "
         "adjacent reported lines, the same in descending order and with a line listed twice; (r,[a line r does not report]); each through the real apply_rules --fix --fix_only with a per-transition monitor (no unlisted rule fixes, a listed rule applies "
         "only violations on listed lines); for line-local rules (documented whitespace/indent/alignment/case) the changed lines are within the selection (plus trailing-whitespace-only lines) and "
         "every listed line that (r,'all') changes is changed; non-trivial = seeds with at least one fixable reporting rule",
